@@ -89,7 +89,7 @@ def param_convert(tool, a, b, fa, fb, nrec, plen=800):
     def h():
         core.FUEL.set(40)
         m = M()
-        ns = [sym_int('rec%d_len' % i, 1, plen) for i in range(nrec)]
+        ns = [sym_int('rec%d_len' % i, *(plen if isinstance(plen, tuple) else (1, plen))) for i in range(nrec)]
         texts = [Source('prec%d' % i, 't', n).rope() for i, n in enumerate(ns)]
         def rp():
             return {'kind': 'param', 'args': {'tool': tool, 'a': a, 'b': b, 'fa': fa, 'fb': fb, 'lens': [ev(n) for n in ns],
@@ -163,6 +163,10 @@ def obligations(tier):
                               'two opaque parameter records of length 1..800', _funcs))
     obs.append(Ob('mci_ipm_param_encode/cp500-latin_1/vbs-1014/long-record', param_convert('mci_ipm_param_encode', 'cp500', 'latin_1', False, True, 1, plen=3000), 900,
                   'one opaque parameter record of length 1..3000', _funcs))
+    obs.append(Ob('mci_ipm_param_encode/latin_1-cp500/1014-vbs/max-record', param_convert('mci_ipm_param_encode', 'latin_1', 'cp500', True, False, 1, plen=(5995, 6000)), 900,
+                  'one opaque parameter record of 5995..6000 characters (up to the configured maximum record length)', _funcs))
+    obs.append(Ob('paramconv/cp500-latin_1/vbs-vbs/max-record', param_convert('paramconv', 'cp500', 'latin_1', False, False, 1, plen=(5995, 6000)), 900,
+                  'one opaque parameter record of 5995..6000 characters', _funcs))
     obs.append(Ob('paramconv/latin_1-cp500/1014-1014/long-record', param_convert('paramconv', 'latin_1', 'cp500', True, True, 1, plen=3000), 900,
                   'one opaque parameter record of length 1..3000', _funcs))
     return obs
